@@ -59,4 +59,9 @@ async def main():
     await f3b()
 
 
-anyio.run(main)
+import io, sys, contextlib
+buf = io.StringIO()
+with contextlib.redirect_stdout(buf):
+    anyio.run(main)
+print(buf.getvalue(), end="")
+sys.exit(1 if "KeyError" in buf.getvalue() else 0)  # exit 1 = defect observed
